@@ -317,6 +317,8 @@ func (y *c03Sys) perturbations(leaf int) []c03Pert {
 	add("to", "uppercase-bech32", false, func(c *c03Claim) { c.To = strings.ToUpper(c.To) })
 	add("to", "sender", false, func(c *c03Claim) { c.To = c.Sender })
 	add("denom", "other", true, func(c *c03Claim) { c.Denom = "uyy" })
+	// the L2 name of the same token on this bridge (a token pair for it exists once it was deposited)
+	add("denom", "l2-denom-of-its-pair", false, func(c *c03Claim) { c.Denom = ref.L2Denom(c.Bridge, c.Denom) })
 	add("amount", "+1", true, func(c *c03Claim) { c.Amount = c.Amount.AddRaw(1) })
 	add("amount", "-1", false, func(c *c03Claim) { c.Amount = c.Amount.SubRaw(1) })
 	add("amount", "other-leaf", false, func(c *c03Claim) { c.Amount = math.NewIntFromUint64(w.Amount + 3) })
